@@ -5,6 +5,7 @@ Nothing in /repo is edited.  What the pass changes is listed in INSTRUMENTATION 
 sha256 of the original and of the instrumented text, in every evidence file.
 """
 import ast
+import collections.abc as _abc
 import hashlib
 import importlib
 import os
@@ -280,8 +281,35 @@ def load(modname, rebind=None, cut_loops=None, cuts=None, mutate=None, vc=None, 
         ns.update(rebind)
     if vc is not None:
         ns["_pyvc"] = vc
-    return Loaded(ns, modname, path, hashlib.sha256(src.encode()).hexdigest(),
-                  hashlib.sha256(text.encode()).hexdigest(), p.applied, text)
+    L_ = Loaded(ns, modname, path, hashlib.sha256(src.encode()).hexdigest(),
+                hashlib.sha256(text.encode()).hexdigest(), p.applied, text)
+    # containers / memo tables the module owns at load time (frame condition generated for every path of every unit, see written_module_state)
+    try:
+        L_.state0 = {k: v for k, v in module_state(L_).items() if len(v) > 1}
+    except Exception:
+        L_.state0 = {}
+    LOADED.append(L_)
+    del LOADED[:-60]
+    return L_
+
+
+LOADED = []
+
+
+def written_module_state():
+    """[(module name, [global names])]: module-level containers and memo tables (dict / list / set / functools caches) that an instrumented module owned
+    when it was loaded and that have since been written (same object, other size or keys).  The package keeps no such state, so every entry is a
+    table that some call left behind for a later call to pick up."""
+    out = []
+    for L_ in LOADED:
+        st0 = getattr(L_, "state0", None)
+        if not st0:
+            continue
+        now = module_state(L_)
+        ch = [k for k, v in st0.items() if k in now and now[k][0] == v[0] and now[k] != v]
+        if ch:
+            out.append((L_.modname if hasattr(L_, "modname") else str(L_), sorted(ch)))
+    return out
 
 
 def set_vc(loaded, vc):
@@ -299,6 +327,12 @@ def module_state(loaded):
             out[k] = (id(v), "dict", len(v), tuple(sorted(map(repr, v.keys())))[:20])
         elif isinstance(v, (list, set)):
             out[k] = (id(v), type(v).__name__, len(v), ())
+        elif isinstance(v, (_abc.MutableMapping, _abc.MutableSet, _abc.MutableSequence)) and not isinstance(v, type):
+            # WeakKeyDictionary / WeakValueDictionary / deque / user-defined tables
+            try:
+                out[k] = (id(v), type(v).__name__, len(v), ())
+            except Exception:
+                out[k] = (id(v),)
         elif callable(getattr(v, "cache_info", None)) and not isinstance(v, type):
             # functools.lru_cache / functools.cache wrappers keep their table inside the wrapper: its size is module-level state
             try:
